@@ -73,6 +73,14 @@ pub trait Scenario: Sync {
     fn must_succeed_kinds(&self) -> Vec<&'static str> {
         vec![]
     }
+    /// Contracts whose exported functions the engine sweeps after the probes of every new state:
+    /// (contract, source directory, functions the scenario drives or reads by name), plus the
+    /// addresses that `Address` parameters are filled from. Every *other* exported function found
+    /// in the current source tree is called with nobody's authorisation on a snapshot, and if the
+    /// call succeeds the probes are run again: what they read must not have changed.
+    fn sweep_targets(&self, _ctx: &Self::Ctx) -> (Vec<(soroban_sdk::Address, &'static str, &'static [&'static str])>, Vec<soroban_sdk::Address>) {
+        (vec![], vec![])
+    }
 }
 
 #[derive(Clone, Debug)]
@@ -381,9 +389,7 @@ impl<'a, S: Scenario> Walker<'a, S> {
         let snap = w.snap();
         let mut out = StepOut::default();
         let calls0 = w.calls.get();
-        if let Err(msg) = guarded(|| self.s.probe(ctx, m, &mut out)) {
-            out.fail("setup.operation-refused", format!("an honest set-up operation inside the probes was refused: {}", msg));
-        }
+        probe_and_sweep(self.s, ctx, m, &mut out);
         self.local.calls += w.calls.get() - calls0;
         w.restore(&snap);
         self.local.checks += out.checks;
@@ -671,6 +677,37 @@ fn self_test<S: Scenario>(s: &S) -> Result<(), String> {
     Ok(())
 }
 
+/// The scenario's probes on the current state, then the sweep of exported functions the scenario
+/// does not know (see `Scenario::sweep_targets`). The caller snapshots and restores around it.
+pub fn probe_and_sweep<S: Scenario>(s: &S, ctx: &S::Ctx, m: &S::M, out: &mut StepOut) {
+    let w = s.world(ctx);
+    if let Err(msg) = guarded(|| s.probe(ctx, m, out)) {
+        out.fail("setup.operation-refused", format!("an honest set-up operation inside the probes was refused: {}", msg));
+    }
+    let (targets, addresses) = s.sweep_targets(ctx);
+    if targets.is_empty() || !out.mismatches.is_empty() {
+        return;
+    }
+    let snap = w.snap();
+    let t: Vec<(&soroban_sdk::Address, &str, &[&str])> = targets.iter().map(|(a, d, k)| (a, *d, *k)).collect();
+    for (contract, func, args) in crate::inventory::unknown_calls(w, s.id(), &t, &addresses, 32) {
+        w.restore(&snap);
+        let call = w.call(&contract, &func, &args, crate::world::Auth::Nobody);
+        if call.ok {
+            let mut o = StepOut::default();
+            let _ = guarded(|| s.probe(ctx, m, &mut o));
+            out.checks += o.checks;
+            for mm in o.mismatches {
+                out.fail(
+                    "unknown-entry-point.changed-what-the-probes-read",
+                    format!("after `{}` (not among the entry points the check knows) was called with nobody's authorisation: {} :: {}", func, mm.sig, mm.detail),
+                );
+            }
+        }
+    }
+    w.restore(&snap);
+}
+
 /// Replays a path from a fresh world; returns the mismatches of the last step.
 pub fn replay_path<S: Scenario>(s: &S, cfg: usize, path: &[S::A]) -> (Vec<Mismatch>, Vec<bool>) {
     let (ctx, mut m) = match guarded(|| s.build(cfg)) {
@@ -685,7 +722,7 @@ pub fn replay_path<S: Scenario>(s: &S, cfg: usize, path: &[S::A]) -> (Vec<Mismat
         let mut o = StepOut::default();
         let w = s.world(&ctx);
         let snap = w.snap();
-        s.probe(&ctx, &m, &mut o);
+        probe_and_sweep(s, &ctx, &m, &mut o);
         w.restore(&snap);
         o.mismatches
     };
@@ -699,9 +736,7 @@ pub fn replay_path<S: Scenario>(s: &S, cfg: usize, path: &[S::A]) -> (Vec<Mismat
         }
         let w = s.world(&ctx);
         let snap = w.snap();
-        if let Err(msg) = guarded(|| s.probe(&ctx, &m, &mut o)) {
-            o.fail("setup.operation-refused", format!("an honest set-up operation inside the probes was refused: {}", msg));
-        }
+        probe_and_sweep(s, &ctx, &m, &mut o);
         w.restore(&snap);
         acc.push(o.accepted);
         last = o.mismatches;
